@@ -551,7 +551,8 @@ def rule_dispatch(chk):
             chk.undecided('dispatch', 'group-map', node=gm, file=AH, func='_compute_group_map', detail='generator not interpretable: %s' % e)
 
 
-def rule_helpers(chk):
+def rule_bounds(chk):
+    """what get_dest_array_setup / get_src_array_setup emit for generic groups (model run; shared with C02: the range of destinations a group's loop visits)"""
     ah = M.py(AH)
     cls = M.find_class(ah, 'AccelerationEvalCythonHelper')
     ds = M.find_func(cls, 'get_dest_array_setup')
@@ -591,6 +592,11 @@ def rule_helpers(chk):
                    detail_ok='NP_SRC = self.<src>.size(); s_x = src.x.data ...')
     except (AI.Unsupported, AI.Raised) as e:
         chk.undecided('destination-range', 'emitted-bounds-and-pointers', node=ds, file=AH, func='get_dest_array_setup', detail='generator not interpretable: %s' % e)
+
+
+def rule_helpers(chk):
+    rule_bounds(chk)
+    cls = M.find_class(M.py(AH), 'AccelerationEvalCythonHelper')
     pr = M.find_func(cls, 'get_parallel_range')
     rets = [r for r in ast.walk(pr) if isinstance(r, ast.Return)]
     ok = len(rets) == 1 and isinstance(rets[0].value, ast.Call) and M.call_name(rets[0].value) == 'get_parallel_range' and \
